@@ -213,6 +213,11 @@ func (e *Engine) verifyFunc(fc *FuncContract) (res *FuncResult) {
 	e.mapV0 = st.ghost["MapV"]
 	e.assumeGlobal(Ge(st.alloc, I(1)), "allocation pointer starts above nil")
 	e.computeEscaping(body)
+	for _, th := range fc.theories {
+		if th == "numerals" {
+			e.numeralInit()
+		}
+	}
 	params := e.paramObjects(fc)
 	entry := map[types.Object]Value{}
 	for _, p := range params {
